@@ -85,6 +85,13 @@ def creation_and_conversion(L, db, c, qt, u, fu, x=1.5):
     M("UnitDatabase.Convert(list)", lambda: db.Convert(qt, u, fu, [x]), case)
     M("UnitDatabase.Convert(tuple)", lambda: db.Convert(qt, u, fu, (x,)), case)
     M("UnitDatabase.Convert([(u,1)])", lambda: db.Convert(qt, [(u, 1)], [(fu, 1)], x), case)
+    # the (unit, exponent) overload: a foreign unit at a higher exponent, two different exponents (another dimension),
+    # and a target / source made of two units are all conversions to something of another dimension
+    M("UnitDatabase.Convert([(u,2)],[(foreign,2)])", lambda: db.Convert(qt, [(u, 2)], [(fu, 2)], x), case)
+    M("UnitDatabase.Convert([(u,2)],[(u,3)])", lambda: db.Convert(qt, [(u, 2)], [(u, 3)], x), case)
+    M("UnitDatabase.Convert([(u,1)],[(u,1),(foreign,1)])", lambda: db.Convert(qt, [(u, 1)], [(u, 1), (fu, 1)], x), case)
+    M("UnitDatabase.Convert([(u,1),(foreign,-1)],[(u,1)])", lambda: db.Convert(qt, [(u, 1), (fu, -1)], [(u, 1)], x), case)
+    M("UnitDatabase.Convert([(u,2)],[(u,2),(foreign,1)])", lambda: db.Convert(qt, [(u, 2)], [(u, 2), (fu, 1)], x), case)
     M("Array.GetValues(foreign)", lambda: a.GetValues(fu), case, (a,))
     M("Array[nd].GetValues(foreign)", lambda: an.GetValues(fu), case, (an,))
     M("Array.CreateCopy(unit=foreign)", lambda: a.CreateCopy(unit=fu), case, (a,))
@@ -154,6 +161,108 @@ def arithmetic_derived(ctx, L, T, B, r, n_cases):
             L.must_raise("Quantity - Quantity", lambda: qb - qa, case)
             L.must_raise("UnitDatabase.Sum", lambda: T.db.Sum(qa, qb, 1.0, 2.0), case)
             L.must_raise("UnitDatabase.Subtract", lambda: T.db.Subtract(qb, qa, 1.0, 2.0), case)
+
+
+def _dimension(o):
+    from barril.units import UnitDatabase
+
+    db, d = UnitDatabase.GetSingleton(), {}
+    for c, (_u, e) in o.GetQuantity().GetCategoryToUnitAndExps().items():
+        qt = db.GetCategoryQuantityType(c)
+        d[qt] = d.get(qt, 0) + e
+    return {k: v for k, v in d.items() if v}
+
+
+def mixed_unit_operands(ctx, L):
+    """Left operands that only an explicit request builds: derived quantities carrying two categories of one quantity
+    type in different units. A rejected + / - / ordering must leave them (and the shared quantity behind them) as they
+    were, and a valid product computed before the failures must come out the same after them."""
+    import numpy as np
+    from barril.units import Array, ObtainQuantity, Quantity, Scalar
+
+    maps = [
+        OrderedDict([("length", ["m", 1]), ("diameter", ["cm", 1])]), OrderedDict([("depth", ["km", 2]), ("length", ["ft", -1])]),
+        OrderedDict([("length", ["cm", 1]), ("time", ["s", -1]), ("diameter", ["m", 1])]), OrderedDict([("mass", ["kg", 1]), ("length", ["m", -2]), ("depth", ["cm", -1])]),
+    ]  # fmt: skip
+    wrong = [lambda: Scalar(3.0, "s"), lambda: Scalar(3.0, "kg") / Scalar(2.0, "s"), lambda: Scalar("length", 2.0, "m"), lambda: Scalar(2.0, "m") * Scalar(2.0, "m") * Scalar(2.0, "m") * Scalar(1.0, "m")]
+    for mi, m in enumerate(maps):
+        for how in ("CreateDerived", "ObtainQuantity(dict)"):
+            q = Quantity.CreateDerived(OrderedDict((k, list(v)) for k, v in m.items())) if how == "CreateDerived" else ObtainQuantity(OrderedDict((k, list(v)) for k, v in m.items()))
+            for cls in ("Scalar", "Array[list]", "Array[nd]"):
+                a = Scalar(q, 12.0) if cls == "Scalar" else Array(q, [12.0, 3.0] if cls == "Array[list]" else np.array([12.0, 3.0]))
+                k = Scalar(2.0, "m") if cls == "Scalar" else Array([2.0, 4.0], "m")
+                before = (snapshot.value_object(a * k), snapshot.value_object(a / k), snapshot.quantity_fingerprint(q))
+                case = {"map": [[c, u, e] for c, (u, e) in m.items()], "built_by": how, "class": cls}
+                for wi, mk in enumerate(wrong):
+                    b = mk() if cls == "Scalar" else Array(mk().GetQuantity(), [1.0, 2.0])
+                    if _dimension(a) == _dimension(b):
+                        continue  # km2/ft is a length
+                    ctx.nt(("mixed", mi, how, cls, wi))
+                    for nme, op in ADDSUB:
+                        L.must_raise("mixed-unit derived %s %s other dimension" % (cls, nme), lambda: op(a, b), case, (a, b))
+                        L.must_raise("other dimension %s mixed-unit derived %s" % (nme, cls), lambda: op(b, a), case, (a, b))
+                    if cls == "Scalar":
+                        for nme, op in ORDER:
+                            L.must_raise("mixed-unit derived Scalar %s" % nme, lambda: op(a, b), case, (a, b))
+                    ctx.ev()
+                    after = (snapshot.value_object(a * k), snapshot.value_object(a / k), snapshot.quantity_fingerprint(q))
+                    if after != before:
+                        ctx.violation("valid-operation-differs-after-a-rejected-one:mixed-unit derived %s" % cls, dict(case, before=repr(before)[:300], after=repr(after)[:300]), replay=case)
+                        before = after
+
+
+def override_then_create(ctx, L):
+    """'at any point inside an arbitrary sequence of other operations' - here the sequence contains a registration: values
+    are created under a category, the category is re-registered (override) for another quantity type, and the very
+    same creations - their unit no longer belongs to the category's type - must all raise now."""
+    from barril.units import Array, ObtainQuantity, Quantity, Scalar, UnitDatabase
+
+    def make():
+        db = UnitDatabase()
+        db.AddUnitBase("length", "meters", "m")
+        db.AddUnit("length", "centimeters", "cm", "%f * 100.0", "%f / 100.0")
+        db.AddUnitBase("time", "seconds", "s")
+        db.AddUnit("time", "minutes", "min", "%f / 60.0", "%f * 60.0")
+        db.AddCategory("length", "length")
+        db.AddCategory("time", "time")
+        db.AddUnit("length", "inches", "in", "%f / 0.0254", "%f * 0.0254", default_category="bore")
+        db.AddCategory("bore", "length")
+        return db
+
+    def od(*items):
+        return OrderedDict((c, [u, e]) for c, u, e in items)
+
+    creations = [
+        ("Scalar(x,u,c)", lambda: Scalar(1.0, "m", "bore")), ("Scalar(c,x,u)", lambda: Scalar("bore", 1.0, "cm")), ("Scalar(x,u) by the unit's default category", lambda: Scalar(1.0, "in")),
+        ("ObtainQuantity(u)", lambda: ObtainQuantity("in")), ("ObtainQuantity(u,c)", lambda: ObtainQuantity("cm", "bore")), ("Array(c,values,u)", lambda: Array("bore", [1.0], "m")),
+        ("ObtainQuantity(dict)", lambda: ObtainQuantity(od(("bore", "cm", 2), ("time", "s", -1)))), ("Quantity.CreateDerived", lambda: Quantity.CreateDerived(od(("bore", "cm", 2), ("time", "s", -1)))),
+        ("ObtainQuantity(list,categories)", lambda: ObtainQuantity([("cm", 2), ("s", -2)], ["bore", "time"])), ("ObtainQuantity(dict, one factor)", lambda: ObtainQuantity(od(("bore", "m", 3)))),
+        ("Quantity.CreateCopyInstance(map)", lambda: ObtainQuantity("s", "time").CreateCopyInstance(od(("bore", "cm", 3), ("time", "s", 1)))),
+        ("Scalar(bore) * Scalar(time)", lambda: Scalar(1.0, "m", "bore") * Scalar("time", 2.0, "s")),
+    ]  # fmt: skip
+    import itertools
+
+    for warm in (True, False):
+        db = make()
+        with table.pushed(db):
+            if warm:
+                for name, mk in creations:
+                    ctx.ev()
+                    try:
+                        mk()
+                    except Exception as e:
+                        ctx.violation("override:valid-creation-raised:%s" % name, {"error": repr(e)[:160]})
+            db.AddCategory("bore", "time", override=True)
+            for name, mk in creations:
+                ctx.nt(("override", warm, name))
+                L.must_raise("after override (%s): %s" % ("created before" if warm else "never created before", name), mk, {"scenario": "category re-registered for another quantity type", "created_before_the_override": warm})
+            ctx.ev()
+            try:
+                ok = Scalar(2.0, "min", "bore").GetValue("s") == 120.0
+            except Exception as e:
+                ok = repr(e)
+            if ok is not True:
+                ctx.violation("override:valid-use-of-the-re-registered-category-fails", {"got": ok})
 
 
 # --------------------------------------------------------------------------------- differential
@@ -327,6 +436,10 @@ def run(ctx):
                 ctx.sample({"category": c, "foreign_units": [f[1] for f in foreign[:8]]})
         B = programs.Basis(T, ctx.rng("basis%d" % (ctx.shard % 4)))
         arithmetic_derived(ctx, L, T, B, r, 400 if ctx.tier == "quick" else 6000)
+        if ctx.shard == 0:
+            mixed_unit_operands(ctx, L)
+    if ctx.shard == 0:
+        override_then_create(ctx, L)
     differential(ctx, r, 25 if ctx.tier == "quick" else 400, 70)
     ctx.notes["entry_points"] = L.entries
     ctx.inconclusive_if(len(L.entries) < 40, "only %d entry points exercised" % len(L.entries))
